@@ -16,7 +16,7 @@ RULE = (
     "generated streams of 1..n command/response pairs over all command codes with sessions, parameter encryption, failed "
     "responses, the same code back to back with different configurations, streams ending after a command; per-file corpus "
     "streams; stream events must equal the concatenation of the individual decodes (response decoded with the preceding "
-    "command's code and encryption request) and events_to_objs must yield one equal object per message in order; distinct = "
+    "command's code and encryption request), every individual decode must equal the reference interpreter's, and events_to_objs must yield one equal object per message in order; distinct = "
     "distinct (sequence of (code, sessions, decrypt, encrypt, failure)) streams"
 )
 ASSUMPTIONS = ["message boundaries and pairing come from the reference interpreter, not from the decoder under test"]
